@@ -36,7 +36,7 @@ def run(rep: Report, tier: str) -> None:
         rep.analysed(fi)
         comps = [c for c in c10._window_comparisons(m, fi) if c[2] == "to"]
         if not comps:
-            rep.violation(rb, mod, qual, f"{qual}: to-date cut on the entry's calendar date", f"{qual} contains no comparison of an entry's timestamp.date() with the to-date: a run limited by -t would include later history here", "")
+            c10.missing_bound(rep, rb, m, fi, "to", f"{qual}: to-date cut on the entry's calendar date", "a run limited by -t would include later history here (or cut it at another instant than the truncated history would)")
         for c in comps:
             c10._judge(rep, rb, m, fi, c)
     c10.check_per_copy_state(rep, rb)
